@@ -25,7 +25,8 @@ func safeArgCases(g *Gen) []*Case {
 	formats := []struct {
 		f     string
 		nargs int
-	}{{"", 1}, {"", 2}, {"%s", 1}, {"%v", 1}, {"got %s here", 1}, {"%s and %s", 2}, {"%s", 2}, {"plain", 1}}
+	}{{"", 1}, {"", 2}, {"%s", 1}, {"%v", 1}, {"got %s here", 1}, {"%s and %s", 2}, {"%s", 2}, {"plain", 1},
+		{"first line %s\nsecond line %s", 2}, {"a\nb\nc %s", 1}}
 	ctors := []struct {
 		name string
 		f    func(format string, args []interface{}) error
